@@ -70,6 +70,9 @@ def children(x):
   index order for lists/tuples, sorted keys for dicts"""
   if isinstance(x, nnx.Module):
     return [(k, v) for k, v in sorted(vars(x).items()) if k != '_object__state']
+  if isinstance(x, tuple) and hasattr(x, '_fields'):
+    # a generic pytree node (NamedTuple): children by field name, sorted
+    return sorted(zip(x._fields, x))
   if isinstance(x, (list, tuple)):
     return list(enumerate(x))
   if isinstance(x, dict):
